@@ -158,7 +158,7 @@ func (t *Tokenizer) tokenizeBuffer(buf []byte, last bool) error {
 			off += i
 			continue
 		case colonColon:
-			t.mode = valueMap
+			t.mode = commaMap
 			continue
 		case skipChar: // skip and continue
 			continue
